@@ -396,6 +396,54 @@ class KernelRun:
         for _ in range(r.randint(1, 3)):
             await self.pop()
 
+    async def detached_completion(self):
+        """A step whose output is OUTDATED runs again, is detached while it runs (its creator, a
+        sub-plan, runs again), rewrites the same content (no hash update) and succeeds; the sub-plan
+        then defines it again unchanged (full recycle of a SUCCEEDED step)."""
+        r, wf = self.r, self.wf
+        running = await self.q(lambda: self.steps(StepState.RUNNING))
+        if "./plan.py" not in running:
+            return
+        src, out = r.sample(PATHS, 2)
+        ans = await self.tx(f"k static {kkey('step', './plan.py')} {hexlist([src])}",
+                            lambda: wf.declare_static_files(wf.find(Step, "./plan.py"), [src]),
+                            lambda v: hexlist(sorted(v)))
+        if not ans.startswith("ok"):
+            return
+        await self.hashes(HashUpdateCause.CONFIRMED, [src], 1.0)
+        if not (await self.define_explicit("./plan.py", "./sub.py", [], [], Need.PLAN)).startswith("ok"):
+            return
+        if not await self.pop_until("./sub.py"):
+            return
+        if not (await self.define_explicit("./sub.py", "work", [src], [out], Need.DEFAULT)).startswith("ok"):
+            return
+        await self.complete_ok("./plan.py")
+        await self.complete_ok("./sub.py")
+        if not await self.pop_until("work", limit=3):
+            return
+        await self.complete_ok("work")
+        # the source changes; work is dispatched again and runs
+        await self.hashes(HashUpdateCause.EXTERNAL, [src], 1.0)
+        if not await self.pop_until("work", limit=3):
+            return
+        # its creator has to run again: work is detached while its command runs
+        await self.step_op("mark_pending", "./sub.py", fn=lambda: wf.mark_step_pending(wf.find(Step, "./sub.py")))
+        await self.step_op("delete_hash", "./sub.py", fn=lambda: wf.find(Step, "./sub.py").delete_hash())
+        if not await self.pop_until("./sub.py", limit=3):
+            return
+        await self.step_op("reset_rerun", "./sub.py", fn=lambda: wf.find(Step, "./sub.py").reset_for_rerun())
+        state = await self.q(lambda: (wf.find(Step, "work").get_state(), wf.find(File, out).get_state()))
+        if state != (StepState.RUNNING, FileState.OUTDATED):
+            return
+        tok = self.newtok()
+        await self.step_op("completed", "work", tok, 0,
+                           fn=lambda: wf.find(Step, "work").mark_completed(kdump.step_token(tok), False),
+                           result=lambda v: kdump.b01(v))
+        await self.define_explicit("./sub.py", "work", [src], [out], Need.DEFAULT)
+        await self.complete_ok("./sub.py")
+        for _ in range(r.randint(0, 2)):
+            await self.pop()
+
     async def deferred_wakeup(self):
         """A consumer amends an input that is OUTDATED (its producer has to run again) and is
         deferred; the producer then rewrites the same content (no hash update: `mark_completed`
@@ -855,6 +903,8 @@ class KernelRun:
                 await self.deferred_wakeup()
             elif k < 0.38:
                 await self.resource_race()
+            elif k < 0.46:
+                await self.detached_completion()
         menu = [(self.define, 20), (self.static, 8), (self.declstatic, 5), (self.tree, 4), (self.nglob, 4),
                 (self.amend, 8), (self.recycle_under_glob, 3),
                 (self.confirm, 12), (self.external, 6), (self.pop, 18), (self.run_step, 18),
